@@ -219,10 +219,7 @@ func closeInstances(tier string) []Instance {
 						if !thorough(tier) && ((closers == 2 && (buf == 2 || !blocks)) || (buf == 2 && !blocks)) {
 							continue
 						}
-						bound := 1
-						if thorough(tier) {
-							bound = 2
-						}
+						bound := 2
 						p := closeParams{kind: kd.kind, nsw: kd.nsw, buf: buf, state: st, blocks: blocks, closers: closers, post: posts[i%len(posts)]}
 						i++
 						out = append(out, Instance{Name: p.name(), Bound: bound, Root: closeScenario(p)})
